@@ -402,11 +402,16 @@ def run(ctx):
         ctx.gen("PegAccess.lean", gen_peg.render(tree))
         pops, pv, pu, pglob = gen_peg.extract(tree)
         pegrows = ig.PegRows(pops, pv, pu)
-        ctx.gen("UnmarshSites.lean", gen_unmarsh.render(tree))
-        ctx.gen("VmGuards.lean", gen_vmguards.render(tree))
     except ExtractError as e:
         broken.append("translator: %s" % e)
         ctx.broken.append(broken[-1])
+    # the session-3 translators are independent of the ones above: a shape change seen by one must not hide the others' tables
+    for fname, mod in (("UnmarshSites.lean", gen_unmarsh), ("VmGuards.lean", gen_vmguards)):
+        try:
+            ctx.gen(fname, mod.render(tree))
+        except ExtractError as e:
+            broken.append("translator %s: %s" % (mod.__name__, e))
+            ctx.broken.append(broken[-1])
     v = ctx.try_variant(VARIANT)
     if v is None or ops is None:
         if broken:
